@@ -263,6 +263,13 @@ def release_everywhere(pts, rng, cbs=(None, "buf", "null")):
                     for rel in range(0, ncalls + 1):
                         execs.append(gen.decode_exec(p, sorted(order) if api == "setavail" else order, api=api, finish=True,
                                                      cb=cb, probe="end", release_at=rel))
+        # a rejected configuration, released at once or after a second, accepted one
+        bad = {1: "rawparams 0 300 5 4 0 0 0", 2: "rawparams 0 3 2 4 5 0 0", 3: "rawparams 0 %d %d 4 0 2 1" % (p.k, p.r),
+               5: "rawparams 0 0 4 4 0 0 0"}.get(p.codec)
+        if bad:
+            for role in ("enc", "dec"):
+                execs.append(["create 0 %d %s" % (p.codec, role), bad, "release 0"])
+                execs.append(["create 0 %d %s" % (p.codec, role), bad, bad, p.params_line(0), "release 0"])
         # unconfigured / configured-only
         execs.append(["create 0 %d dec" % p.codec, "release 0"])
         execs.append(["create 0 %d dec" % p.codec, p.params_line(0), "release 0"])
